@@ -24,7 +24,13 @@ type c20Case struct {
 	Tree    []string `json:"tree_mutations"`
 	Servers string   `json:"servers"`
 	MgrSw   bool     `json:"manager_switchover"`
+	// Conf: a legal but non-default configuration (empty: the defaults of the harness)
+	Conf string `json:"config_variant,omitempty"`
 }
+
+// legal extremes of the configuration: zero lag bounds with replicas that do lag, semi-sync off,
+// a required semi-sync count of zero
+var c20Confs = []string{"zero-lag-bounds", "semi-sync-off", "zero-wait-count"}
 
 var c20TreeMutations = []string{
 	"master=gone", "master=empty", "master:absent", "master:malformed", "master=h2",
@@ -45,6 +51,15 @@ func c20Run(r *vt.Run, c c20Case) {
 	spec := Spec{HA: []string{"h1", "h2", "h3"}, Conf: map[string]string{"failover": "true", "manager_switchover": fmt.Sprint(c.MgrSw),
 		"slave_catch_up_timeout": "4s", "wait_start_replication_timeout": "2s", "replication_convergence_timeout_switchover": "4s",
 		"switchover_max_attempts": "2", "db_set_ro_force_timeout": "5s", "db_set_ro_timeout": "5s"}}
+	switch c.Conf {
+	case "zero-lag-bounds":
+		spec.Conf["priority_choice_max_lag"] = "0s"
+		spec.OptConf = map[string]string{"high_replication_mark": "0s", "low_replication_mark": "0s"}
+	case "semi-sync-off":
+		spec.Conf["semi_sync"] = "false"
+	case "zero-wait-count":
+		spec.Conf["rpl_semi_sync_master_wait_for_slave_count"] = "0"
+	}
 	hasCascade := false
 	for _, m := range c.Tree {
 		if strings.HasPrefix(m, "cascade:") {
@@ -60,6 +75,11 @@ func c20Run(r *vt.Run, c c20Case) {
 	Bubble(r.T, spec, func(h *H) {
 		c20Prepare(h, c)
 		w := h.W
+		if c.Conf == "zero-lag-bounds" {
+			l2, l3 := 5.0, 7.0
+			w.Servers["h2"].Lag, w.Servers["h3"].Lag = &l2, &l3
+			h.InjectHealth()
+		}
 		w.LogStmts = r.Replay != nil
 		outage := strings.HasPrefix(c.Servers, "started-during-outage")
 		if outage {
@@ -290,9 +310,18 @@ func checkC20(r *vt.Run) {
 	r.Bound("server_states", len(c20ServerStates))
 	for _, srv := range c20ServerStates {
 		for _, ms := range []bool{false, true} {
-			run(c20Case{nil, srv, ms})
+			run(c20Case{Servers: srv, MgrSw: ms})
 			for _, m := range c20TreeMutations {
-				run(c20Case{[]string{m}, srv, ms})
+				run(c20Case{Tree: []string{m}, Servers: srv, MgrSw: ms})
+			}
+		}
+	}
+	r.Bound("configuration_variants", len(c20Confs)+1)
+	for _, cf := range c20Confs {
+		for _, srv := range c20ServerStates {
+			run(c20Case{Servers: srv, Conf: cf})
+			for _, m := range c20TreeMutations {
+				run(c20Case{Tree: []string{m}, Servers: srv, Conf: cf})
 			}
 		}
 	}
@@ -307,7 +336,7 @@ func checkC20(r *vt.Run) {
 				if strings.SplitN(m1, ":", 2)[0] == strings.SplitN(m2, ":", 2)[0] || strings.SplitN(m1, "=", 2)[0] == strings.SplitN(m2, "=", 2)[0] {
 					continue
 				}
-				run(c20Case{[]string{m1, m2}, srv, false})
+				run(c20Case{Tree: []string{m1, m2}, Servers: srv})
 			}
 		}
 	}
